@@ -124,6 +124,11 @@ static void janetc_movenear(JanetCompiler *c,
                         JOP_GET_INDEX);
         }
     } else if (src.envindex >= 0) {
+        /* The instruction has 8 bits for each: a larger value would silently name another slot */
+        if (src.index > 0xFF || src.envindex > 0xFF) {
+            janetc_cerror(c, "captured variable is out of range - the enclosing function has too many locals or environments");
+            return;
+        }
         janetc_emit(c,
                     ((uint32_t)(src.index) << 24) |
                     ((uint32_t)(src.envindex) << 16) |
@@ -151,6 +156,10 @@ static void janetc_moveback(JanetCompiler *c,
                     JOP_PUT_INDEX);
         janetc_regalloc_freetemp(&c->scope->ra, refreg, JANETC_REGTEMP_5);
     } else if (dest.envindex >= 0) {
+        if (dest.index > 0xFF || dest.envindex > 0xFF) {
+            janetc_cerror(c, "captured variable is out of range - the enclosing function has too many locals or environments");
+            return;
+        }
         janetc_emit(c,
                     ((uint32_t)(dest.index) << 24) |
                     ((uint32_t)(dest.envindex) << 16) |
